@@ -379,6 +379,28 @@ class Enumerator:
                     b = self.val_of(st, rv["b"])
                     if a and b and a[0] == "const" and b[0] == "const":
                         v = ("const", (a[1] == b[1]) if rv["op"] == "Eq" else (a[1] != b[1]))
+                elif k == "binop" and rv["op"] in ("BitOr", "BitAnd", "BitXor"):
+                    # `any_ignored |= cond`: booleans known on this path fold (true | x = true, false & x = false)
+                    a = self.val_of(st, rv["a"])
+                    b = self.val_of(st, rv["b"])
+                    ab = a[1] if a and a[0] == "const" and isinstance(a[1], bool) else None
+                    bb_ = b[1] if b and b[0] == "const" and isinstance(b[1], bool) else None
+                    if rv["op"] == "BitOr":
+                        if ab is True or bb_ is True:
+                            v = ("const", True)
+                        elif ab is False and bb_ is False:
+                            v = ("const", False)
+                    elif rv["op"] == "BitAnd":
+                        if ab is False or bb_ is False:
+                            v = ("const", False)
+                        elif ab is True and bb_ is True:
+                            v = ("const", True)
+                    elif ab is not None and bb_ is not None:
+                        v = ("const", ab != bb_)
+                elif k == "unop" and rv["op"] == "Not":
+                    a = self.val_of(st, rv["a"])
+                    if a and a[0] == "const" and isinstance(a[1], bool):
+                        v = ("const", not a[1])
                 if v is None and k == "binop" and rv["op"] in ("Lt", "Le", "Gt", "Ge", "Eq", "Ne") and self.track_cmp:
                     # an order comparison of two runtime values: keep which one, so a branch on it can be recorded
                     v = ("cmp", rv["op"], rv["a"], rv["b"], False)
